@@ -24,8 +24,8 @@ const FUEL: usize = 400;
 
 /// Findings whose entry in known_findings.json has status "fixed": the generator then produces the
 /// formerly avoided shape again, so the fix is checked from then on (bit 1: F-C13-2 copies of
-/// pipelines containing peekable, bit 2: F-C13-3 copies over @next objects). F-C13-1 (bit 0) needs no
-/// switch: the model's ByteIterator mirrors the repaired code and host-bytes cases are always generated.
+/// pipelines containing peekable, bit 2: F-C13-3 copies over @next objects). F-C13-1 (bit 0) and
+/// F-C13-4 need no switch: the model mirrors the repaired code and the shapes are always generated.
 static FIXED: std::sync::atomic::AtomicU8 = std::sync::atomic::AtomicU8::new(0);
 fn is_fixed(bit: u8) -> bool {
     FIXED.load(std::sync::atomic::Ordering::Relaxed) & (1 << bit) != 0
@@ -745,17 +745,12 @@ fn admissible(p: &Pipe, c: &Cons) -> bool {
     if p.infinite() && !bounded_consumer {
         return false;
     }
-    if c.uses_back() {
+    if c.uses_back() && !matches!(c, Cons::PeekOps(_) | Cons::PeekCopy(..)) && back_reaches_obj(p) {
         // `next_back` on a forward-only `@next` object raises an error (MetaIterator::next_back runs
         // the `@next_back` operator unconditionally) where every other forward-only iterator returns
-        // null; the property does not speak about it and the model has no failing pulls
-        if p.has_src(&|s| matches!(s, Src::Obj(_))) {
-            return false;
-        }
-        // peek_back / next_back on a Peekable over a forward-only iterator: shape of finding F-C13-4
-        if matches!(c, Cons::PeekOps(_) | Cons::PeekCopy(..)) && !bidir_pipe(p) && !is_fixed(3) {
-            return false;
-        }
+        // null; the property does not speak about it and the model has no failing pulls. A Peekable
+        // never passes `next_back` on to a forward-only iterator.
+        return false;
     }
     if c.is_copy() {
         // shapes of the listed findings (sources whose position lives in a shared Koto map: F-C13-3;
@@ -768,6 +763,16 @@ fn admissible(p: &Pipe, c: &Cons) -> bool {
         }
     }
     true
+}
+
+/// would a `next_back` call on the pipeline arrive at `MetaIterator::next_back` of a forward-only
+/// `@next` object? (`Each` and `Skip` pass it on unconditionally; everything else answers itself)
+fn back_reaches_obj(p: &Pipe) -> bool {
+    match p {
+        Pipe::Src(Src::Obj(_)) => true,
+        Pipe::Each(_, q) | Pipe::Skip(_, q) => back_reaches_obj(q),
+        _ => false,
+    }
 }
 
 /// `is_bidirectional()` of the iterator the pipeline builds (mirrors `Pipe.bidir` of the model)
@@ -1216,7 +1221,6 @@ fn main() {
                 Some("F-C13-1") => fixed |= 1,
                 Some("F-C13-2") => fixed |= 2,
                 Some("F-C13-3") => fixed |= 4,
-                Some("F-C13-4") => fixed |= 8,
                 _ => {}
             }
         }
@@ -1303,6 +1307,10 @@ fn main() {
             (Pipe::Skip(1, bx(ob(3))), Cons::PeekOps("pqnbpq".chars().collect())),
             (Pipe::Src(Src::Tuple(ints(1))), Cons::PeekOps("pqbnp".chars().collect())),
             (g(3), Cons::PeekOps("ppnpnnp".chars().collect())),
+            // back-end operations on a Peekable over forward-only pipelines (F-C13-4, fixed)
+            (g(3), Cons::PeekOps("pqnbnnn".chars().collect())),
+            (Pipe::Keep("tt", bx(Pipe::Src(Src::Obj(ints(2))))), Cons::PeekOps("pqbnpnn".chars().collect())),
+            (Pipe::Take(2, bx(g(3))), Cons::PeekCopy("pq".chars().collect(), peek_copy_post(true))),
             // host bytes from the back (F-C13-1, fixed) and a copied peekable (F-C13-2, fixed)
             (Pipe::Reversed(bx(Pipe::Src(Src::HostBytes(3)))), Cons::Simple("tolist")),
             (Pipe::Peekable(bx(g(3))), Cons::Copy(1, true)),
